@@ -1,6 +1,8 @@
 import Pegnet.Codec
 import Proofs.JsonKeys
 import Pegnet.Batch
+import Pegnet.Generated.Facts
+import Proofs.JsonRoundTrip
 /-
   C20 — Canonical encoding and exact amounts at the edges.
   Proved here: the amount parser's numeric core is exact or rejects (after the repair recorded
@@ -220,6 +222,41 @@ def xPadded : J := .obj [("\"address\"", "address", .str "\"FA1\"" "FA1" (some "
 
 end Pegnet.C20
 
+namespace Pegnet.C20
+open Pegnet
+
+/-- **Re-encoding round-trips.** Whatever batch the encoders write (`TransactionBatch.MarshalJSON`
+    refuses what `ValidData` refuses; `PTicker.MarshalJSON` refuses a ticker outside the table), the
+    decoders read back as the same version and the same transactions: every input, every transfer
+    output, every conversion target, in order. For every ticker table that satisfies `TickersOK`,
+    every way of writing an address that decodes back to it, every amount a uint64 can hold. -/
+theorem reencoding_round_trips (P : Params) (ok : TickersOK P) (al : Addr → String × String) (v : Nat) (txs : List Tx)
+    (hf : Fits txs) (j : J) (he : encBatch P al v txs = some j) : decBatch P j = some (v, txs) :=
+  decBatch_encBatch P ok al v txs hf j he
+
+/-- a `Params` carrying the shipped ticker table (regenerated from fat/fat2/pticker.go) -/
+def shipped : Params :=
+  { act := ⟨0,0,0,0,0,0,0,0,0,0,0,0,0,0,0,0,0⟩, tickerMax := Generated.tickerMax, tickerNames := Generated.tickers, oneWaySet := [],
+    snapshotRate := 144, perBlockHolders := 0, perBlockDevs := 0, bankBase := 0, avgPeriod := 8, avgRequired := 4,
+    syncVersion := 2, devs := [], «mint» := [], burnAddr := "b", oldBurnAddr := "o", mintAddr := "m", coinbaseAddr := "c", zeroAddr := "0" }
+
+/-- … and the shipped table does satisfy it: each of the 62 names reads back as its own ticker, is
+    at least three bytes long and carries no double quote at either end — so the round trip holds
+    for every parameter set that uses that table -/
+theorem shipped_tickers_round_trip (P : Params) (h1 : P.tickerNames = Generated.tickers) (h2 : P.tickerMax = Generated.tickerMax) :
+    TickersOK P := by
+  apply tickersOK_of_check
+  rw [namesOK_congr P shipped h1 h2]
+  decide
+
+/-- the encoder does accept something: a one-transfer batch is written and read back (non-vacuity of
+    `reencoding_round_trips`, on the shipped table) -/
+example : (encBatch shipped (fun a => ("\"" ++ a ++ "\"", a)) 1
+      [{ inAddr := "aa", inType := 2, inAmount := 5, transfers := [{ addr := "bb", amount := 5 }], conversion := 0 }]).isSome = true := by
+  decide
+
+end Pegnet.C20
+
 #print axioms Pegnet.C20.amount_exact
 #print axioms Pegnet.C20.amount_rejects
 #print axioms Pegnet.C20.transfers_xor_conversion
@@ -229,3 +266,5 @@ end Pegnet.C20
 #print axioms Pegnet.C20.accepted_only_in_canonical_form
 #print axioms Pegnet.C20.accepted_output_keys
 #print axioms Pegnet.C20.input_without_type_is_refused
+#print axioms Pegnet.C20.reencoding_round_trips
+#print axioms Pegnet.C20.shipped_tickers_round_trip
